@@ -219,7 +219,9 @@ def run(case):
                 pts.append(point)
         else:
             pts = [mkpoint(w, False, pi) for pi, w in enumerate(world_pts)]
-        kwargs = {"keepdims": kd}
+        import zlib
+        # (the switch as a numpy bool in every third case: a comparison's result, an array element)
+        kwargs = {"keepdims": np.bool_(kd) if zlib.crc32(("kdform" + str(case["key"])).encode()) % 3 == 0 else kd}
         if wname != "wcs":
             kwargs["wcs"] = wcs_obj
         if not use_objects and form == "values_float_units":
